@@ -12,6 +12,7 @@ From Soy Require Import Model.Ast Model.Token Model.Lexer Model.Parser Generated
   Proofs.LexerProofs Proofs.LexBodyText Proofs.LexBodyTop Proofs.ParseBodyText Proofs.BodyTextMain.
 From Soy Require Import Spec.TextBody Proofs.LexTokens Proofs.LexPrintTop Proofs.LexBodyMain Proofs.BodyCmdMain.
 From Soy Require Import Spec.TextMix Proofs.BodyMixMain.
+From Soy Require Import Spec.TextTemplate Proofs.ParserProofs Proofs.BodyTemplateMain.
 Open Scope N_scope.
 
 (* The loop of parse/rawtext.go returns exactly the Spec's normalisation, under
@@ -274,6 +275,63 @@ Example C15_ex_line_comment_swallows_tag :
   | _ => False
   end.
 Proof. split; vm_compute; reflexivity. Qed.
+
+(* ---- text inside {template}: the statement about a whole minimal file ---- *)
+(* For EVERY file   {template .name} T0 {c1} T1 ... {cn} Tn {/template}   (Spec/TextTemplate.v tpl_file) whose template
+   name is an ASCII word, whose ci are special-character commands or {literal} blocks and whose stretches are plain
+   bytes that may contain comments, no "//" comment being open where a tag begins -- here EVERY stretch is followed
+   by a tag, the last one by {/template} (mix_tpl_ok) -- and on which the Spec's text is defined (mix_tpl_out):
+   the scanner model run on the file (the template tag: lexLeftDelim, lexBeginTag, the keyword, the space, the
+   dotted name, "}"; the body as in C15_body_text_spec; "{/template}": lexBeginTag's '/' case and lexIdent's
+   closing-tag lookup; lexText at the end of the input) returns an item list, and the model of parse.SoyFile run
+   on it under the entry point's own budget (itemList -> beginTag -> parseTemplate: the name, parseAttrs on no
+   attribute, parseAutoescape's and boolAttr's defaults, itemList(itemTemplateEnd) one level down over the body,
+   which stops at "{" "/template") returns a file whose one node is a template node whose body's children are all
+   raw-text nodes and whose texts, concatenated, are   body_text false T0 ++ char(c1) ++ body_text false T1 ++ ...
+   (the first stretch follows the "}" of the template tag: a leading "//" is text).  [inlen] is len(text); [lexq]
+   (the nested scanner, never started here) is any scanner with well-formed items; [unq] is arbitrary.  The
+   template's name, autoescape mode and privacy are not part of this statement (existentially quantified). *)
+Theorem C15_template_body_text_spec : forall lexq unq name T0 rest out,
+  lexq_wf lexq -> tpl_name_wf name -> mix_tpl_ok T0 rest -> mix_tpl_out T0 rest = Some out ->
+  exists items pos tp nm ae pv bpos nodes st,
+    lex_items is_letter_tbl is_digit_tbl (lex_budget (tpl_file name T0 rest)) false (tpl_file name T0 rest) = Ok items /\
+    po_result (soy_file (N.of_nat (length (tpl_file name T0 rest))) lexq unq items)
+      = POk (NList pos [NTemplate tp nm (NList bpos nodes) ae pv]) st /\
+    Forall is_raw nodes /\ concat (map raw_text_of nodes) = out.
+Proof.
+  intros lexq unq name T0 rest out Hq. destruct tables_ascii as [Hl Hd]. destruct tables_eof as [El Ed].
+  exact (template_body_impl_spec is_letter_tbl is_digit_tbl Hl Hd El Ed lexq unq Hq name T0 rest out).
+Qed.
+Print Assumptions C15_template_body_text_spec.
+
+Definition c15_ex_tpl : bstr * list seg :=
+  (b "//not a comment" ++ [10] ++ b "  a /*c*/ ", [((b "sp", [32]), b " b //c" ++ [10]); ((lit_name (b "{x}"), b "{x}"), [10] ++ b "  c" ++ [10])]).
+Example C15_ex_template_body :
+  tpl_name_wf (b "main") /\ mix_tpl_ok (fst c15_ex_tpl) (snd c15_ex_tpl) /\
+  tpl_file (b "main") (fst c15_ex_tpl) (snd c15_ex_tpl) =
+    b "{template .main}//not a comment" ++ [10] ++ b "  a /*c*/ {sp} b //c" ++ [10] ++ b "{literal}{x}{/literal}" ++ [10] ++ b "  c" ++ [10] ++ b "{/template}" /\
+  mix_tpl_out (fst c15_ex_tpl) (snd c15_ex_tpl) = Some (b "//not a comment a  b{x}c") /\
+  match lex_items is_letter_tbl is_digit_tbl (lex_budget (tpl_file (b "main") (fst c15_ex_tpl) (snd c15_ex_tpl))) false (tpl_file (b "main") (fst c15_ex_tpl) (snd c15_ex_tpl)) with
+  | Ok items =>
+      match po_result (soy_file (N.of_nat (length (tpl_file (b "main") (fst c15_ex_tpl) (snd c15_ex_tpl)))) (fun _ => []) (fun _ => None) items) with
+      | POk (NList _ [NTemplate _ nm (NList _ nodes) _ _]) _ =>
+          nm = b ".main" /\ Some (concat (map raw_text_of nodes)) = mix_tpl_out (fst c15_ex_tpl) (snd c15_ex_tpl)
+      | _ => False
+      end
+  | _ => False
+  end.
+Proof.
+  assert (Hplain : forall s : bstr, forallb (fun c => negb (c =? 0) && negb (c =? 123) && negb (c =? 125)) s = true ->
+                   Forall (fun c => c <> 0 /\ c <> 123 /\ c <> 125) s).
+  { intros s H. apply Forall_forall. intros c Hc. rewrite forallb_forall in H. specialize (H c Hc). lia. }
+  split; [split; vm_compute; reflexivity|].
+  split.
+  { unfold mix_tpl_ok, c15_ex_tpl. cbn [fst snd]. split; [split; [apply Hplain; vm_compute; reflexivity|intros _; vm_compute; reflexivity]|].
+    constructor; [|constructor; [|constructor]]; cbn [fst snd].
+    - split; [left; vm_compute; auto 12|split; [apply Hplain; vm_compute; reflexivity|intros _; vm_compute; reflexivity]].
+    - split; [right; split; [reflexivity|intros r; vm_compute; reflexivity]|split; [apply Hplain; vm_compute; reflexivity|intros _; vm_compute; reflexivity]]. }
+  split; [vm_compute; reflexivity|]. split; [vm_compute; reflexivity|]. vm_compute. split; reflexivity.
+Qed.
 
 (* non-vacuity: the hypotheses hold of "see http://x y", and scanner + parser models, run by computation on a
    text with both kinds of comment, give the Spec's text *)
